@@ -388,8 +388,8 @@ def nm_cases(rng, quick):
 
 
 USES_GEN = True
-GEN_PROPS = ["Dashu.Props.GenInt", "Dashu.Props.C02Plumbing", "Dashu.Props.C02PrimLink"]
-GEN_AUDIT = ["Dashu.Audit.GenInt", "Dashu.Audit.C02Plumbing", "Dashu.Audit.C02PrimLink"]
+GEN_PROPS = ["Dashu.Props.GenInt", "Dashu.Props.C02Plumbing", "Dashu.Props.C02PrimLink", "Dashu.Props.C02PrimBig"]
+GEN_AUDIT = ["Dashu.Audit.GenInt", "Dashu.Audit.C02Plumbing", "Dashu.Audit.C02PrimLink", "Dashu.Audit.C02PrimBig"]
 
 _C02 = ["truncating_conventions", "euclidean_conventions",
         "div_by_word_exact", "div_by_dword_exact", "rem_by_word_exact", "rem_by_dword_exact",
@@ -422,8 +422,13 @@ _GEN = ["ibig_div_exact", "ibig_rem_exact", "ibig_divrem_exact", "ibig_div_eucli
 _PRIMLINK = ["ibig_rem_prim_eq", "ibig_divrem_prim_eq", "prim_div_ibig_eq", "ubig_rem_prim_exact", "ubig_divrem_prim_exact",
              "prim_div_ubig_exact", "ibig_rem_signed_prim_exact", "ibig_divrem_signed_prim_exact", "ibig_rem_unsigned_prim_exact",
              "signed_prim_div_ibig_exact", "ibig_rem_unsigned_prim_counterexample", "signed_prim_div_ibig_counterexample"]
+# round 8, Props/C02PrimBig.lean: the primitive-operand forms with a big result (`Big / prim -> Big`) and the assign forms
+# (DivAssign<prim>, DivRemAssign<prim> with OutputRem = prim) = the regenerated table entry `Trait<Big> for Big` on Big::from(prim)
+# (+ C15's primForm for the DivRemAssign remainder)
+_PRIMBIG = ["ofInt_operandOk", "big_prim_every_impl_exact", "divrem_assign_prim_eq", "ubig_divrem_assign_prim_exact",
+            "ibig_divrem_assign_signed_prim_exact"]
 THEOREMS = (["Dashu.Props.C02." + t for t in _C02] + ["Dashu.Props.GenInt." + t for t in _GEN]
-            + ["Dashu.Props.C02PrimLink." + t for t in _PRIMLINK])
+            + ["Dashu.Props.C02PrimLink." + t for t in _PRIMLINK] + ["Dashu.Props.C02PrimBig." + t for t in _PRIMBIG])
 
 REFINED = [
     "shift::shl_in_place / shr_in_place / shr_in_place_with_carry / shr_in_place_one_word, math::shl_dword / shr_word",
@@ -442,6 +447,7 @@ REFINED = [
     "UBig::is_multiple_of, IBig::is_multiple_of, UBig/IBig::is_multiple_of_const = TypedReprRef::is_multiple_of_dword (its own zero test -> the documented divide-by-zero panic, shrink_dword, rem_by_word / rem_by_dword); zero divisor generated and compared",
     "operator-trait plumbing: every `impl Trait<Rhs> for Lhs` of Div / Rem / DivRem / DivEuclid / RemEuclid / DivRemEuclid / DivAssign / RemAssign / DivRemAssign on UBig / IBig / ConstDivisor in every ownership form (108 impls: helper_macros forward_ubig_binop_to_repr / forward_ibig_binop_to_repr / forward_ubig_ibig / forward_ibig_ubig, impl_binop_assign_by_taking, the hand-written ConstDivisor impls). The table (operand accessors, sign-table macro or wrapper shape, TypedRepr dispatch functions called) is REGENERATED on every run from the macro-expanded crate (vlib/divplumb.py -> Gen/DivPlumbing.lean, registered in vlib/extract.py); the driver runs every op through ALL table entries of its traits; theorem plumbing_every_impl_exact: every entry, run along its route, gives the truncating resp. Euclidean quotient/remainder of the documented result types, or the divide-by-zero panic, for all operands",
     "primitive-operand forms of div_ops.rs (Rem<prim> -> prim, DivRem<prim>, Div<Big> for prim; macro bodies `big.op(Big::from(prim)).try_into().unwrap()` read by hand): link theorems Props/C02PrimLink - the C02 model route on Big::from(prim) composed with C15's checked conversion (Props/C15.primForm) returns the documented value without a conversion panic exactly in the form classes C15 proves, DivideByZero for a zero divisor, and fails the conversion on the two finding classes recorded under C15 (round 7, by import of Props/C02Plumbing and Props/C15)",
+    "primitive-operand forms with a big result and the assign forms (`Div<prim> for Big -> Big`, `DivAssign<prim>`, `DivRemAssign<prim>` with OutputRem = prim; macro bodies `self.method(Big::from(rhs))[.try_into().unwrap()]` read by hand): Props/C02PrimBig (round 8) - EVERY entry `Trait<Big> for Big` of the regenerated operator table (Gen/DivPlumbing.table), run along its route (Entry.eval, an assign entry forwarding to the by-value impl) on Big::from(p) = SRepr.ofInt p, gives DivideByZero for p = 0 and otherwise well-formed results of the documented types denoting tdiv / tmod (resp. Euclidean) of a by p (big_prim_every_impl_exact); for DivRemAssign<prim> the quotient is left in self and the remainder passes C15's checked conversion without a panic for UBig with 0 < p <= uN::MAX and IBig with p != 0 in a signed range (ubig_divrem_assign_prim_exact, ibig_divrem_assign_signed_prim_exact, over C15.ubig_rem_unsigned_fits / ibig_rem_signed_fits)",
     "ConstDivisor::from_word / from_dword mirrored directly (own zero tests, shrink_dword, ConstSingleDivisor::new / ConstDoubleDivisor::new with their debug_asserts) and proved equal to ConstDivisor::new of the same value (const_from_word_eq_new, const_from_dword_eq_new), zero included",
     "base/src/ring/div_rem.rs impl_div_rem_ops_prim (DivRem, DivRemAssign, DivRemEuclid with its sign fix-up and overflow checks; DivEuclid/RemEuclid forward to std) for every machine integer type: zero divisor and MIN / -1 panic, otherwise tdiv/tmod resp. Euclidean quotient/remainder, all in range",
     "div::memory_requirement_exact / divide_conquer::memory_requirement_exact: sufficient for every scratch allocation of div_rem_in_place, all operand lengths (memory.rs 'not enough memory allocated' unreachable)",
@@ -450,7 +456,7 @@ REFINED = [
 ]
 FRONTIER = [
     "operator-trait plumbing, what remains outside the theorem: (a) that the macro-expanded listing read by vlib/divplumb.py is what rustc compiles (the expansion is rustc's own -Zunpretty=expanded output; a body outside the recognised shapes becomes Core.other and fails closed) and the meaning given to the recognised shapes by DivPlumbing.evalCore (`UBig(L.div(R))` = divRepr etc.) - tied by the correspondence: the harness evaluates all ownership/assign forms and prints forms-disagree on a difference; (b) by-value vs by-reference operands are the same model value (ownership has no semantic content in the model; buffer reuse is C17's)",
-    "primitive-operand forms of div_ops.rs (impl_binop_with_primitive / impl_div_by_primitive / impl_divrem_with_primitive: UBig|IBig op uN|iN, uN|iN / UBig|IBig, Rem -> primitive) are not DRIVEN by C02 (C15 drives every such form; two findings about them are recorded under C15). Since round 7 they are linked by theorem (Props/C02PrimLink, imports Props/C02Plumbing + Props/C15): the composition `big-operand route of the C02 model (remRepr / divRemRepr / divRepr, ibigRem / ibigDivRem / ibigDiv on Big::from(prim)) then C15.primForm` returns the documented remainder / quotient with no conversion panic for UBig % uN, UBig.div_rem(uN), uN / UBig, IBig % iN, IBig.div_rem(iN), IBig % uN with a non-negative dividend, iN / IBig except MIN / -1, the divide-by-zero panic for a zero divisor, and `none` on the two finding classes. What remains outside: that the macro bodies are this composition is read from the source text by hand (the three macros are not regenerated), `Big::from(prim)` is taken as ofNat / SRepr.ofInt of the value (C16 owns the conversions), and the assign forms (DivAssign / DivRemAssign with a primitive) and `Big / prim -> Big` (no checked conversion of the result) are covered only as the big-operand form",
+    "primitive-operand forms of div_ops.rs (impl_binop_with_primitive / impl_div_by_primitive / impl_divrem_with_primitive: UBig|IBig op uN|iN, uN|iN / UBig|IBig, Rem -> primitive) are not DRIVEN by C02 (C15 drives every such form; two findings about them are recorded under C15). Since round 7 they are linked by theorem (Props/C02PrimLink, imports Props/C02Plumbing + Props/C15): the composition `big-operand route of the C02 model (remRepr / divRemRepr / divRepr, ibigRem / ibigDivRem / ibigDiv on Big::from(prim)) then C15.primForm` returns the documented remainder / quotient with no conversion panic for UBig % uN, UBig.div_rem(uN), uN / UBig, IBig % iN, IBig.div_rem(iN), IBig % uN with a non-negative dividend, iN / IBig except MIN / -1, the divide-by-zero panic for a zero divisor, and `none` on the two finding classes. What remains outside: that the macro bodies are this composition is read from the source text by hand (the three macros are not regenerated), `Big::from(prim)` is taken as ofNat / SRepr.ofInt of the value (C16 owns the conversions). Since round 8 the assign forms (DivAssign / DivRemAssign with a primitive) and `Big / prim -> Big` are theorems over the regenerated table entries on Big::from(prim) (Props/C02PrimBig); still outside: `IBig.div_rem_assign(uN)` with a negative dividend (the remainder conversion fails there - the same finding class as `IBig % uN` recorded under C15; only the general form divrem_assign_prim_eq covers it, giving primForm of the negative remainder), and that the macro instantiates the by-value `Trait<Big> for Big` impl (read by hand)",
     "div_const::repr, what remains outside the regenerated arm table: the MEANING given to each recognised arm body (DivPlumbing.CAct.eval: e.g. `erase_front(div_len); push_resizing(q_top)` = drop n ++ [qTop]) is hand-written, tied to the code by the correspondence only; the bodies of div_rem_small_single / div_rem_small_double and of ConstSingleDivisor / ConstDoubleDivisor::{rem_dword, rem_large} are hand-mirrored (proved = plain division, compared on every run) but not regenerated",
     "ConstLargeDivisor::rem_large / rem_repr and the Reducer impls belong to C13 and are not modelled here",
     "primitive.rs / math.rs word helpers (double_word, split_dword, extend_word, shrink_dword, highest_dword, lowest_dword, split_hi_word) are inlined as Nat arithmetic; std intrinsics (leading_zeros, trailing_zeros, is_power_of_two, <<, >>, &, |, checked_div) and, for the primitive kernels, Rust's `/` `%` and std div_euclid / rem_euclid are taken at their documented meaning (see ASSUMPTIONS) - no executable Rust-semantics model exists below these, so nothing can carry them further",
